@@ -13,6 +13,10 @@
 (* defects of that design: lost updates, and - even with atomic updates -    *)
 (* a pop that overtakes the pusher's increment saturates at 0 and leaves     *)
 (* the counter one too high for ever.                                        *)
+(* Named deviation "pop_claims_first" (seeded/C01, seeded/C03): pop takes    *)
+(* its item out of the counter before it looks into the injector and does    *)
+(* not give the claim back when it finds nothing - a pop that lands between  *)
+(* the two halves of a push makes the counter under-report for ever.         *)
 EXTENDS Naturals, Sequences, FiniteSets, TLC
 
 CONSTANTS Threads, MaxOps, Deviations
@@ -27,6 +31,7 @@ VARIABLES shared,    \* sequence of items in the injector
 
 vars == <<shared, glen, pc, tmp, ops, got, nxt>>
 Split == "len_lost_update" \in Deviations
+Claim == "pop_claims_first" \in Deviations
 SatSub(a, b) == IF a >= b THEN a - b ELSE 0
 
 Init == /\ shared = <<>> /\ glen = 0 /\ pc = [t \in Threads |-> "idle"]
@@ -52,7 +57,7 @@ IncStore(t)  == /\ pc[t] = "P3"
                 /\ glen' = tmp[t] + 1 /\ pc' = [pc EXCEPT ![t] = "idle"]
                 /\ UNCHANGED <<shared, tmp, ops, got, nxt>>
 
-StartPop(t)  == /\ pc[t] = "idle" /\ ops[t] < MaxOps
+StartPop(t)  == /\ pc[t] = "idle" /\ ops[t] < MaxOps /\ ~Claim
                 /\ ops' = [ops EXCEPT ![t] = @ + 1]
                 /\ pc' = [pc EXCEPT ![t] = IF glen = 0 THEN "idle" ELSE "Q2"]   \* Q1 fast path
                 /\ UNCHANGED <<shared, glen, tmp, got, nxt>>
@@ -62,6 +67,17 @@ Steal(t)     == /\ pc[t] = "Q2"
                    ELSE /\ got' = got \cup {Head(shared)} /\ shared' = Tail(shared)
                         /\ pc' = [pc EXCEPT ![t] = "Q3"]
                 /\ UNCHANGED <<glen, tmp, ops, nxt>>
+\* deviation: claim first (atomic checked sub), then look; an empty look keeps the claim
+ClaimPop(t)  == /\ pc[t] = "idle" /\ ops[t] < MaxOps /\ Claim
+                /\ ops' = [ops EXCEPT ![t] = @ + 1]
+                /\ IF glen = 0 THEN UNCHANGED <<glen, pc>>
+                   ELSE glen' = glen - 1 /\ pc' = [pc EXCEPT ![t] = "QC"]
+                /\ UNCHANGED <<shared, tmp, got, nxt>>
+StealClaimed(t) == /\ pc[t] = "QC"
+                   /\ IF shared = <<>> THEN UNCHANGED <<shared, got>>
+                      ELSE got' = got \cup {Head(shared)} /\ shared' = Tail(shared)
+                   /\ pc' = [pc EXCEPT ![t] = "idle"]
+                   /\ UNCHANGED <<glen, tmp, ops, nxt>>
 DecAtomic(t) == /\ pc[t] = "Q3" /\ ~Split
                 /\ glen > 0                       \* never below zero: checked by NoUnderflow
                 /\ glen' = glen - 1 /\ pc' = [pc EXCEPT ![t] = "idle"]
@@ -75,7 +91,7 @@ DecStore(t)  == /\ pc[t] = "Q4"
 
 Next == \E t \in Threads :
           \/ StartPush(t) \/ IncAtomic(t) \/ Inject(t) \/ IncLoad(t) \/ IncStore(t)
-          \/ StartPop(t) \/ Steal(t) \/ DecAtomic(t) \/ DecLoad(t) \/ DecStore(t)
+          \/ StartPop(t) \/ ClaimPop(t) \/ StealClaimed(t) \/ Steal(t) \/ DecAtomic(t) \/ DecLoad(t) \/ DecStore(t)
 Spec == Init /\ [][Next]_vars
 
 Quiescent == \A t \in Threads : pc[t] = "idle"
@@ -91,5 +107,5 @@ QuiescentLenExact == Quiescent => glen = Len(shared)
 \* items are never stranded behind the fast path
 NeverStranded == (Quiescent /\ shared # <<>>) => glen > 0
 \* intended design: the counter never under-reports, so the atomic sub cannot underflow
-NoUnderflow == ~Split => glen >= Len(shared) + Cardinality({t \in Threads : pc[t] = "Q3"})
+NoUnderflow == (~Split /\ ~Claim) => glen >= Len(shared) + Cardinality({t \in Threads : pc[t] = "Q3"})
 =============================================================================
